@@ -477,6 +477,23 @@ theorem as_samples_tuple_labels_type (a : ArrLike) (labels : List Label) (args :
     · split <;> rfl
     · split <;> rfl
 
+open SSM.Dispatch in
+/-- **`append_variables` with ANY samples-like** (mapping of constants, another SampleSet, list of dicts, generator, `(array, labels)` …):
+    whenever it returns, `as_samples` accepted the input with distinct labels and rows that carry, label by label, the values the input
+    denotes, and the result is `append_variables` of exactly those labels and rows — so `append_variables_frame` /
+    `append_variables_raises_iff` speak about every form -/
+theorem append_variables_every_form (s : SS) (f : Form) (sortLabels : Bool) (s' : SS) (hc : f.Clean)
+    (h : appendVariablesForm s f sortLabels = some s') :
+    ∃ o, run {} f = .ok o ∧ s.appendVars o.labels o.rows sortLabels = some s' ∧ o.labels.Nodup ∧ o.rows.length = f.denote.length ∧
+      ∀ (j : Nat) (row : List Rat) (d : List (Label × Rat)), o.rows[j]? = some row → f.denote[j]? = some d →
+        row.length = o.labels.length ∧ ∀ v ∈ o.labels, cell o.labels row v = lookup d v := by
+  unfold appendVariablesForm at h
+  split at h
+  · rename_i o ho
+    obtain ⟨h1, h2, h3⟩ := as_samples_every_form f {} o hc ho
+    exact ⟨o, ho, h, h1, h2, h3⟩
+  · cases h
+
 /-- **`np.argsort(kind='stable')` of the model is stable** (`IsSortingPerm` alone leaves the order of ties open): of two
     positions whose keys are in order the earlier one comes first, so `truncate` / `slice` / `first` / `samples(sorted_by=…)`
     are determined also among equal keys -/
